@@ -458,6 +458,31 @@ Section Example2.
     - cbv [l cv l0 treset_update_early reset_vars upd2 set2 get2 mkvar map fold_left vx vinit fst snd].
       intro Heq. inversion Heq. lra.
   Qed.
+  (** ** Order obligation of Optic.update(): pickups first, then solves.
+      Three coordinates (a, b, c): a is the toleranced handle, b := -a is a pickup target, c := a - b is solved from
+      both (an image distance that depends on the picked-up radius).  From the state left by a trial (a perturbed, update
+      applied) Tolerancing.reset with update = solve after pickup restores the nominal lens; with the two swapped the
+      solve sees the stale pickup target and the lens is NOT restored. *)
+  Definition L3 := (R * R * R)%type.
+  Definition get3 (l : L3) (_ : unit) : R := fst (fst l).
+  Definition set3 (l : L3) (_ : unit) (v : R) : L3 := (v, snd (fst l), snd l).
+  Definition pickup3 (l : L3) : L3 := (fst (fst l), - fst (fst l), snd l).
+  Definition solve3 (l : L3) : L3 := (fst (fst l), snd (fst l), fst (fst l) - snd (fst l)).
+  Definition upd3_code (l : L3) : L3 := solve3 (pickup3 l).       (* Optic.update: pickups.apply(); solves.apply() *)
+  Definition upd3_swapped (l : L3) : L3 := pickup3 (solve3 l).
+  Theorem update_order_sensitive :
+    let l0 : L3 := (60, -60, 120) in
+    let pv := map (mkvar (O:=ROps) get3 l0) [tt] in
+    let l := upd3_code (set3 l0 tt 65) in
+    upd3_code l0 = l0 /\ upd3_swapped l0 = l0 /\
+    treset (O:=ROps) set3 upd3_code pv [] l = l0 /\
+    treset (O:=ROps) set3 upd3_swapped pv [] l <> l0.
+  Proof.
+    intros l0 pv l.
+    cbv [l pv l0 treset reset_vars upd3_code upd3_swapped solve3 pickup3 set3 get3 mkvar map fold_left vx vinit fst snd].
+    repeat split; try (repeat f_equal; lra).
+    intro Heq. inversion Heq. lra.
+  Qed.
   (** and the machine really runs on it: one Monte-Carlo trial with a scalar sampler, row = fresh evaluation *)
   Example run_example :
     let pv := map (mkvar (O:=ROps) get2 (60, 5)) [true] in
